@@ -235,7 +235,8 @@ def create_equation_from_terms(terms):
             term = '+' + term
         terms[i] = term
     if terms[0][0] == '+':
-        terms[0] = terms[0].replace('+', '')
+        # Only strip the leading sign (not any '+' inside the term).
+        terms[0] = terms[0][1:]
     eqn = ''.join(terms)
     return eqn
 
